@@ -53,6 +53,15 @@ func verifyBlockSuccession(reader db.KeyValueReader, block *core.Block) error {
 	return nil
 }
 
+// headStateRoot returns the state root the chain head ended with (zero for an empty chain).
+// It must be called after verifyBlockSuccession (block.Number is the head's number plus one).
+func headStateRoot(reader db.KeyValueReader, block *core.Block) (*felt.Felt, error) {
+	if block.Number == 0 {
+		return &felt.Zero, nil
+	}
+	return core.GetGlobalStateRootByBlockNumber(reader, block.Number-1)
+}
+
 // updateBlockHash computes block hash and commitments, mutates block and stateUpdate in place.
 func updateBlockHash(
 	block *core.Block,
